@@ -66,7 +66,9 @@ Lemma on_complete_spec cfg i t key b b2 :
   exists ds res cas',
     present_digests H t (td_outs t) (w_ws (b_world b)) = Some ds /\
     b_world b2 = b_world b /\ b_exec b2 = b_exec b /\ b_stop b2 = b_stop b /\ sts b2 = sts b /\
-    b_cache b2 = mkCache (results_set key res (c_results (b_cache b))) cas' (c_taint (b_cache b)) /\
+    b_cache b2 = (if cfg_cache cfg
+                  then mkCache (results_set key res (c_results (b_cache b))) cas' (c_taint (b_cache b))
+                  else b_cache b) /\
     rt_len b2 = rt_len b.
 Proof.
   unfold Build.on_complete. intro Hc.
@@ -169,13 +171,16 @@ Proof.
 Qed.
 
 (* what a successful execution guarantees *)
-Record exec_ok (s : sources) (t : tdef) (key : str) (tainted : bool) (b b' : bstate) : Prop := {
+Record exec_ok (cfg : config) (s : sources) (t : tdef) (key : str) (tainted : bool) (b b' : bstate) : Prop := {
   eo_cmd     : if null (td_cmd t) then b_world b' = b_world b
                else run_command s t (b_world b) = Some (b_world b');      (* the command exited 0 *)
   eo_check   : check_ok (b_world b') t = true;                           (* every output check passes afterwards *)
   eo_outs    : forall o, In o (td_outs t) ->
                exists c, ws_get (out_path t o) (w_ws (b_world b')) = PFile c;   (* every declared output exists *)
-  eo_result  : exists res, rlookup key (c_results (b_cache b')) = Some res;  (* the result is stored under the key *)
+  eo_result  : if cfg_cache cfg
+               then exists res, rlookup key (c_results (b_cache b')) = Some res   (* the result is stored under the key *)
+               else c_results (b_cache b') = c_results (b_cache b) /\
+                    c_cas (b_cache b') = c_cas (b_cache b);         (* ... unless the cache is disabled: not written *)
   eo_others  : forall k, k <> key -> rlookup k (c_results (b_cache b')) = rlookup k (c_results (b_cache b));
   eo_taint   : tainted = true -> label_in (td_label t) (c_taint (b_cache b')) = false;  (* the taint is consumed *)
   eo_taints  : c_taint (b_cache b') = if tainted then label_remove (td_label t) (c_taint (b_cache b))
@@ -187,7 +192,7 @@ Record exec_ok (s : sources) (t : tdef) (key : str) (tainted : bool) (b b' : bst
 }.
 
 Lemma execute_ok cfg s i t key tainted b b' :
-  execute cfg s i t key tainted b = (true, b') -> exec_ok s t key tainted b b'.
+  execute cfg s i t key tainted b = (true, b') -> exec_ok cfg s t key tainted b b'.
 Proof.
   unfold Build.execute. intro He.
   set (b0 := if null (td_cmd t) then b else add_exec b (td_label t)) in *.
@@ -204,17 +209,21 @@ Proof.
   apply on_complete_spec in Eo as (ds & res & cas' & Hd & Hw & Hx & Hst & Hss & Hca & Hlen).
   autorewrite with bst in *.
   assert (Hb' : b_world b' = w' /\ b_exec b' = b_exec b0 /\ b_stop b' = b_stop b /\ sts b' = sts b /\
-                rt_len b' = rt_len b /\ c_results (b_cache b') = results_set key res (c_results (b_cache b)) /\
+                rt_len b' = rt_len b /\
+                (if cfg_cache cfg then c_results (b_cache b') = results_set key res (c_results (b_cache b))
+                 else c_results (b_cache b') = c_results (b_cache b) /\ c_cas (b_cache b') = c_cas (b_cache b)) /\
                 (tainted = true -> label_in (td_label t) (c_taint (b_cache b')) = false) /\
                 c_taint (b_cache b') = (if tainted then label_remove (td_label t) (c_taint (b_cache b))
                                         else c_taint (b_cache b))).
   { rewrite sts_set_world in Hss.
     destruct tainted; inversion He; subst b'; clear He.
     - rewrite sts_set_cache. autorewrite with bst.
-      rewrite Hw, Hx, Hst, Hss, Hlen, Hca, Hc0, Hs0, Hp0, Hl0. cbn [c_results c_cas c_taint].
-      repeat split; try reflexivity. intros _. apply label_in_remove.
-    - rewrite Hw, Hx, Hst, Hss, Hlen, Hca, Hc0, Hs0, Hp0, Hl0. cbn [c_results c_cas c_taint].
-      repeat split; try reflexivity. intros ?; discriminate. }
+      rewrite Hw, Hx, Hst, Hss, Hlen, Hca, Hc0, Hs0, Hp0, Hl0.
+      destruct (cfg_cache cfg); cbn [c_results c_cas c_taint];
+        repeat split; try reflexivity; intros _; apply label_in_remove.
+    - rewrite Hw, Hx, Hst, Hss, Hlen, Hca, Hc0, Hs0, Hp0, Hl0.
+      destruct (cfg_cache cfg); cbn [c_results c_cas c_taint];
+        repeat split; try reflexivity; intros ?; discriminate. }
   destruct Hb' as (Bw & Bx & Bs & Bt & Bl & Br & Btn & Bts).
   constructor.
   - rewrite Bw. destruct (null (td_cmd t)) eqn:En.
@@ -222,8 +231,9 @@ Proof.
     + rewrite Hw0 in Er. exact Er.
   - rewrite Bw. exact Ec.
   - rewrite Bw. eapply present_digests_some. exact Hd.
-  - exists res. rewrite Br. apply rlookup_set_same.
-  - intros k Hk. rewrite Br. apply rlookup_set_other. congruence.
+  - destruct (cfg_cache cfg); [exists res; rewrite Br; apply rlookup_set_same | exact Br].
+  - intros k Hk. destruct (cfg_cache cfg); [rewrite Br; apply rlookup_set_other; congruence|].
+    destruct Br as [Br _]. rewrite Br. reflexivity.
   - exact Btn.
   - exact Bts.
   - exact Bx.
@@ -280,7 +290,7 @@ Inductive task_outcome (cfg : config) (s : sources) (i : nat) (t : tdef) (b b' :
 | TO_exec_ok : forall dh b1 b3,      (* executed successfully *)
     dep_hashes s b (td_deps t) = Some dh ->
     b_cache b1 = b_cache b -> b_exec b1 = b_exec b -> sts b1 = sts b -> w_ext (b_world b1) = w_ext (b_world b) ->
-    exec_ok s t (key_of s t dh) (label_in (td_label t) (c_taint (b_cache b))) b1 b3 ->
+    exec_ok cfg s t (key_of s t dh) (label_in (td_label t) (c_taint (b_cache b))) b1 b3 ->
     b' = mark b3 i TExecuted -> task_outcome cfg s i t b b'
 | TO_exec_fail : forall dh b1 b3,    (* executed and failed: nothing is stored *)
     dep_hashes s b (td_deps t) = Some dh ->
@@ -358,10 +368,10 @@ Record hit_facts (cfg : config) (s : sources) (t : tdef) (b b' : bstate) : Prop 
 }.
 
 (* ... when it ends as executed *)
-Record executed_facts (s : sources) (t : tdef) (b b' : bstate) : Prop := {
+Record executed_facts (cfg : config) (s : sources) (t : tdef) (b b' : bstate) : Prop := {
   ef_ok : exists dh b1, dep_hashes s b (td_deps t) = Some dh /\
           b_cache b1 = b_cache b /\ b_exec b1 = b_exec b /\
-          exec_ok s t (key_of s t dh) (label_in (td_label t) (c_taint (b_cache b))) b1 b'
+          exec_ok cfg s t (key_of s t dh) (label_in (td_label t) (c_taint (b_cache b))) b1 b'
 }.
 
 (* ... when it ends as failed *)
@@ -379,7 +389,7 @@ Lemma task_cases cfg s i t b b' :
    (status_of b' i = TExecuted /\
     exists dh b1 b3, dep_hashes s b (td_deps t) = Some dh /\ b_cache b1 = b_cache b /\ b_exec b1 = b_exec b /\
                      w_ext (b_world b1) = w_ext (b_world b) /\
-                     exec_ok s t (key_of s t dh) (label_in (td_label t) (c_taint (b_cache b))) b1 b3 /\
+                     exec_ok cfg s t (key_of s t dh) (label_in (td_label t) (c_taint (b_cache b))) b1 b3 /\
                      b' = mark b3 i TExecuted)).
 Proof.
   intros Ho Hi. rewrite <- sts_length in Hi. unfold status_of.
@@ -388,7 +398,7 @@ Proof.
     constructor; autorewrite with bst; auto. apply ext_frame_refl.
   - rewrite sts_mark, S1, status_list_set by exact Hi. split; [reflexivity|]. right; left. split; [reflexivity|].
     constructor; autorewrite with bst; eauto.
-  - pose proof (eo_sts _ _ _ _ _ _ Hok) as S3.
+  - pose proof (eo_sts _ _ _ _ _ _ _ Hok) as S3.
     rewrite sts_mark, S3, S1, status_list_set by exact Hi. split; [reflexivity|]. right; right. split; [reflexivity|].
     exists dh, b1, b3. split; [exact Hd|]. split; [exact C1|]. split; [exact X1|]. split; [exact E1|].
     split; [exact Hok | reflexivity].
